@@ -109,7 +109,7 @@ struct Model {
 
 impl Model {
     fn apply(&mut self, call: &Call, track_warm: bool) {
-        let mut touch = |m: &mut Model, ks: u8| {
+        let touch = |m: &mut Model, ks: u8| {
             if track_warm {
                 m.warm.insert(ks);
             }
